@@ -254,7 +254,7 @@ MT_RULE = ("multitree histories: column 0 multitree (plain / counted / append-on
            "root is traversed through get_root / get_node and dumped canonically (nodes numbered by first visit, so sharing is visible), the plain column is read, and "
            "after a reopen the entry count of the multitree column is taken. Non-trivial: the history shares nodes between trees or dereferences a tree while its lock is held. "
            "One history in twelve (not append-only) starts with wide sharing: a tree with 200-255 children, then a tree whose 150-250 children are nine in ten "
-           "EXISTING children of the first (a few hundred reference counters change in one log record), drained, optionally reopened, optionally the sharer dereferenced")
+           "EXISTING children of the first (a few hundred reference counters change in one log record), drained, optionally reopened, optionally the sharer dereferenced; two thirds of these and a sixth of the other histories run with a small reference count table (hook H7: 2-8 chunks of 32 counters instead of 65536) and with steps of the reindex worker at random moments, in particular between the processing and the enactment of the sharer's dereference: the table grows (bits + 1), the outgrown table is moved batch by batch and dropped")
 prop(
     id="C10", module="Properties.C10", vfile="Properties/C10.v", level="proof", subcmd="c10", beyond_known=True,
     theorems=["C10_node_pack_roundtrip", "C10_unrepresentable_rejected", "C10_insert_reads_back_after_commit", "C10_insert_reads_back_after_processing", "C10_shared_node_survives_dereference", "C10_unshared_leaf_is_reclaimed", "C10_invalid_operation_rejects_without_trace"],
